@@ -2,7 +2,7 @@
 from common_tb import COMMON_TB
 
 CFG = dict(
-    id="C03", tie="Tie.C03", n_quick=30, n_thorough=150, thorough_seeds=2, gen_timeout=3000,
+    id="C03", tie="Tie.C03", n_quick=30, n_thorough=120, thorough_seeds=2, gen_timeout=3000,
     rule="n = number of workloads. Each workload: a real store (Synced(true)) in a temp dir opened over INSTRUMENTED "
          "appendables injected through the public store.Options.WithAppFactory/WithAppRemoveFunc; random configuration "
          "(FileSize 256..4096 -> chunk rotation, WriteBufferSize 32..1024 -> buffer-full flushes, MaxActiveTransactions "
